@@ -417,6 +417,7 @@ def check(chk):
     _defaults(chk, repo)
     _conditions_at_dispatch(chk, repo)
     _enable_state_notifies(chk, repo)
+    _time_placeholder_wakeups(chk, repo)
 
     # ------------------------------------------------------------ PAIR-19
     f = repo.func("mpf/core/config_player.py", "ConfigPlayer._update_subscription")
@@ -511,6 +512,65 @@ def _enable_state_notifies(chk, repo):
             ok = len(c.args) == 3 and src(c.args[2]) == new and src(c.args[1]) == ("False" if new == "True" else "True")
             chk.ob("NOTIFY-1", "%s() reports the change as (old, new) = (%s, %s)" % (name, "False" if new == "True" else "True", new), ok, f.where(c),
                    detail=src(c), construct=f.ident, text="enabled change values in " + name)
+
+
+def _linear(e):
+    """An integer-linear form over attribute reads: {None: constant, 'current_time.minute': coefficient, ...}; None when e is not linear."""
+    if isinstance(e, ast.Constant) and isinstance(e.value, (int, float)) and not isinstance(e.value, bool):
+        return {None: e.value}
+    if isinstance(e, ast.Attribute):
+        return {src(e): 1, None: 0}
+    if isinstance(e, ast.UnaryOp) and isinstance(e.op, ast.USub):
+        v = _linear(e.operand)
+        return None if v is None else {k: -c for k, c in v.items()}
+    if isinstance(e, ast.BinOp) and isinstance(e.op, (ast.Add, ast.Sub)):
+        a, b = _linear(e.left), _linear(e.right)
+        if a is None or b is None:
+            return None
+        out = dict(a)
+        for k, c in b.items():
+            out[k] = out.get(k, 0) + (c if isinstance(e.op, ast.Add) else -c)
+        return out
+    if isinstance(e, ast.BinOp) and isinstance(e.op, ast.Mult):
+        a, b = _linear(e.left), _linear(e.right)
+        if a is None or b is None:
+            return None
+        if set(a) == {None}:
+            return {k: a[None] * c for k, c in b.items()}
+        if set(b) == {None}:
+            return {k: b[None] * c for k, c in a.items()}
+    return None
+
+
+def _time_placeholder_wakeups(chk, repo):
+    """TIME-16: a subscription to machine.time.<field> wakes when the field changes, not later: the sleep is 1 s for the second, the rest of
+    the minute (60 - second) for the minute, and the rest of the hour (3600 - 60 * minute - second) for hour / day / month / year -
+    compared as linear forms, so any spelling of the same arithmetic passes."""
+    f = repo.func(PM, "TimePlaceholder.subscribe_attribute")
+    chk.analysed(f)
+    cfg = f.cfg()
+    want = {"second": {None: 1}, "minute": {None: 60, "current_time.second": -1}, "hour": {None: 3600, "current_time.minute": -60, "current_time.second": -1}}
+    seen = set()
+    for n in cfg.nodes:
+        if n.kind != "stmt" or not isinstance(n.ast, ast.Return) or not isinstance(n.ast.value, ast.Call) or call_attr(n.ast.value) != "sleep":
+            continue
+        g = cfg.guards_at(n.id)
+        which = None
+        for k, v in g.items():
+            if v is True and "item" in k:
+                for fld in ("second", "minute", "hour"):
+                    if "'%s'" % fld in k.replace('"', "'"):
+                        which = which or fld
+        if which is None or not n.ast.value.args:
+            continue
+        seen.add(which)
+        lin = _linear(n.ast.value.args[0])
+        norm = None if lin is None else {k: c for k, c in lin.items() if c != 0 or k is None}
+        w_ = {k: c for k, c in want[which].items()}
+        chk.ob("TIME-16", "a subscription to the %s wakes exactly when the %s changes" % (which, which), norm is not None and {k: c for k, c in norm.items() if c} == {k: c for k, c in w_.items() if c},
+               f.where(n.ast), detail="sleeps %s = %s" % (src(n.ast.value.args[0]), norm), construct=f.ident, text="time wake-up for " + which)
+    chk.ob("TIME-16", "wake-ups for second, minute and hour examined", seen == {"second", "minute", "hour"}, f.where(), detail=str(sorted(seen)), construct=f.ident,
+           text="time wake-ups present")
 
 
 def _conditions_at_dispatch(chk, repo):
@@ -750,6 +810,8 @@ def _flow(chk, f, fcfg, node, expr, subs, acc, what):
 def battery():
     from sa.battery import M
     return [
+        M("hour subscription wakes a minute late", "mpf/core/placeholder_manager.py", "asyncio.sleep(3600 - current_time.second - 60 * current_time.minute)", "asyncio.sleep(60 * (60 - current_time.minute) + 60 - current_time.second)", "TIME-16"),
+        M("twin: hour wake-up spelled as minutes and seconds left", "mpf/core/placeholder_manager.py", "asyncio.sleep(3600 - current_time.second - 60 * current_time.minute)", "asyncio.sleep(60 * (59 - current_time.minute) + 60 - current_time.second)", None),
         M("enabled change notified only for the unpersisted state", "mpf/core/enable_disable_mixin.py", "        self.enabled = True\n        self.notify_virtual_change(\"enabled\", False, True)      # type: ignore\n", "        self.enabled = True\n", "NOTIFY-1",
           also=[("mpf/core/enable_disable_mixin.py", "        else:\n            self._enabled = value\n", "        else:\n            self._enabled = value\n            self.notify_virtual_change(\"enabled\", not value, value)\n")]),
         M("twin: enabled change notified in the setter on both branches", "mpf/core/enable_disable_mixin.py", "        self.enabled = True\n        self.notify_virtual_change(\"enabled\", False, True)      # type: ignore\n", "        self.enabled = True\n", None,
